@@ -1,5 +1,6 @@
 import SppModel.Model.Meta
 import SppModel.Generated.HeaderUpdates
+import SppModel.Frozen.HeaderUpdates
 import Mathlib.Tactic.Ring
 import Mathlib.Tactic.FieldSimp
 import Mathlib.Tactic.Linarith
